@@ -107,6 +107,49 @@ func (t *tally) summary() string {
 	return strings.Join(s, ",")
 }
 
+// probeClosed (C14): after Close returns, EVERY LogStore and StableStore method returns
+// ErrClosed -- also the degenerate calls (empty batch, empty range) -- and a second Close
+// is a no-op.  Implementation only; the metrics tally is paused so that nothing is counted.
+func (r *walRun) probeClosed() {
+	w := r.w
+	atomic.StoreInt32(&r.t.paused, 1)
+	defer atomic.StoreInt32(&r.t.paused, 0)
+	var lg raft.Log
+	calls := []struct {
+		name string
+		err  error
+	}{
+		{"StoreLogs(nil)", w.StoreLogs(nil)},
+		{"StoreLogs(one entry)", w.StoreLogs([]*raft.Log{{Index: 1, Term: 1}})},
+		{"StoreLog", w.StoreLog(&raft.Log{Index: 1, Term: 1})},
+		{"DeleteRange(5,4)", w.DeleteRange(5, 4)},
+		{"DeleteRange(1,1)", w.DeleteRange(1, 1)},
+		{"GetLog(1)", w.GetLog(1, &lg)},
+		{"Set", w.Set([]byte("k"), []byte("v"))},
+		{"SetUint64", w.SetUint64([]byte("k"), 1)},
+	}
+	_, e1 := w.FirstIndex()
+	_, e2 := w.LastIndex()
+	_, e3 := w.Get([]byte("k"))
+	_, e4 := w.GetUint64([]byte("k"))
+	for i, e := range []error{e1, e2, e3, e4} {
+		calls = append(calls, struct {
+			name string
+			err  error
+		}{[]string{"FirstIndex", "LastIndex", "Get", "GetUint64"}[i], e})
+	}
+	for _, c := range calls {
+		if !errors.Is(c.err, wal.ErrClosed) {
+			r.c.witness("C14", "method-after-close-not-errclosed", fmt.Sprintf("%s after Close returns %v, not ErrClosed", c.name, c.err), r.line)
+			break
+		}
+	}
+	if err := w.Close(); err != nil {
+		r.c.witness("C14", "second-close-not-noop", fmt.Sprintf("a second Close returns %v", err), r.line)
+	}
+	r.c.stat("closed_probes")
+}
+
 // ---- custom codec (any external ID) ---------------------------------------
 
 type idCodec struct {
@@ -808,7 +851,7 @@ func (r *walRun) run() string {
 				emit("nowal")
 				continue
 			}
-			var lg raft.Log
+			lg := dirtyLog() // GetLog into a reused struct: every field must be overwritten
 			err := r.w.GetLog(idx, &lg)
 			r.tot["log_entries_read"]++
 			nom := r.alts[0]
@@ -960,6 +1003,7 @@ func (r *walRun) run() string {
 			r.checkHeld() // before the store's memory goes away
 			r.w.Close()
 			emit("ok")
+			r.probeClosed()
 		case "M":
 			emit(r.t.summary())
 			if d := r.t.collectorDiff(); d != "" {
